@@ -21,6 +21,10 @@ CLAIMS = {
         "text": "Symbolic execution of MultipartDecoder.receive_data/next_event, MultiPartParser.parse and wsgi.get_input_stream with max_form_memory_size, max_form_parts and max_content_length as solver integers (or None): buffer length <= limit after every receive, part counter, accumulated field size, and the pure-guard law (a limited run that succeeds returns exactly the unlimited result, compared in the same query) over symbolic payload bytes, several part shapes, buffer sizes and 2-way splits; get_input_stream's decision table against an independent reading of CONTENT_LENGTH for every text <= 3 characters in U+0000..U+07FF.",
         "note": "Trusted: as C01 plus the stream / stream_factory stubs. Bounds: field payload <= 4 (quick) / 6 bytes, 1-4 parts, limits 0..len(body)+2. urlencoded bodies: only the declared-length check is covered.",
     },
+    "C13": {
+        "text": "Symbolic execution of http.dump_cookie (quote-free fast path, UTF-8 encoding, escaping regex and table lookup, attribute assembly) followed by sansio.http.parse_cookie and http.parse_cookie (pair splitting regex, un-escaping, decoding) on a value of n solver code points: every path's query asserts that the emitted value is ASCII made of RFC 6265 cookie-octets, or a quoted string whose body contains only printable non-separator characters and backslash escapes, and that parsing returns exactly the value; a second harness asserts the attribute list is exactly the requested one, canonical and in fixed order, with max_age a solver integer and every flag combination.",
+        "note": "Trusted: interpreter/regex/codec models (validated per path natively), z3. Bounds: value <= 3 code points in U+0000..U+07FF (quick; 4 thorough), 1 (2 thorough) code point over all of Unicode incl. surrogates; concrete token key. A raw space inside a quoted value is accepted (pinned by the suite). IDNA domains, expires dates and the test client's jar are outside.",
+    },
     "C09": {
         "text": "Bounded symbolic execution of wsgi.LimitedStream (readinto/readall/exhaust/on_exhausted/on_disconnect) from the real source: data length, limit, is_max, read sizes, per-call fragment sizes of the underlying stream and the fault point are solver variables; every sequence of 2 (quick) / 3 (thorough) operations over read/readinto/readall/exhaust is explored and each path's query (no over-read, prefix-exactness, readinto buffer contract, disconnect/too-large only when warranted) is unsat. Holds for every value within the bounds, says nothing beyond them.",
         "note": "Trusted: the interpreter's model of Python semantics (validated per path by native replay), z3, the io.RawIOBase.read stub (documented definition), the nondeterministic underlying-stream stub. Bounds: data <= 6/8 bytes, 2/3 operations.",
